@@ -103,7 +103,9 @@ def _worker(args):
 def pmap(mod, cases, nproc=None, chunksize=None):
     global _MOD
     _MOD = mod
-    nproc = min(nproc or NPROC, 1 + len(cases) // 120)  # pool start-up costs ~1 s per worker on this machine
+    # pool start-up costs ~1 s per worker on this machine: size the pool by the amount of work
+    weight = getattr(mod, "CASE_WEIGHT", 1)
+    nproc = min(nproc or NPROC, 1 + len(cases) * weight // 120)
     items = list(enumerate(cases))
     # VERIF_SEED only permutes processing order
     random.Random(SEED).shuffle(items)
